@@ -197,7 +197,12 @@ def known_k3_hedger(case, v):
     return v["label"] == "C18/hedger/non-finite" and bool(d.get("k3_combo")) and bool(d.get("zero_vol_at_first_nan"))
 
 
-KNOWN = {"K3": known_k3, "K3-hedger": known_k3_hedger}
+def known_k6(case, v):
+    d = v.get("detail") or {}
+    return v["label"] == "C18/hedger/non-finite" and bool(d.get("binary_atm_zero_vol"))
+
+
+KNOWN = {"K3": known_k3, "K3-hedger": known_k3_hedger, "K6": known_k6}
 
 
 def _k3_single(name, point, dtype):
@@ -213,7 +218,9 @@ def _k3_single(name, point, dtype):
 def negative_case(draw):
     return {"which": draw(st.sampled_from(["t", "v", "both"])), "neg": draw(st.sampled_from([-1e-12, -1e-6, -0.1, -1.0])),
             "s": draw(fl(-1.0, 1.0)), "K": draw(st.sampled_from([1.0, 0.5, 2.0])), "mixed": draw(st.booleans()),
-            "dtype": draw(st.sampled_from(["float32", "float64"]))}
+            "dtype": draw(st.sampled_from(["float32", "float64"])),
+            # the offending argument as a tensor element, a 0-dim tensor, or a plain Python number (all three forms are accepted for valid values)
+            "form": draw(st.sampled_from(["tensor", "tensor", "scalar0d", "float", "int"]))}
 
 
 def check_negative(case, ctx):
@@ -225,10 +232,20 @@ def check_negative(case, ctx):
     m = s + 0.1
     t = torch.full((n,), 0.5, dtype=dt)
     v = torch.full((n,), 0.2, dtype=dt)
+    form = case.get("form", "tensor")
+
+    def offending(x):
+        if form == "tensor":
+            x[-1] = case["neg"]
+            return x
+        if form == "scalar0d":
+            return torch.tensor(case["neg"], dtype=dt)
+        return -1 if form == "int" else case["neg"]
+
     if case["which"] in ("t", "both"):
-        t[-1] = case["neg"]
+        t = offending(t)
     if case["which"] in ("v", "both"):
-        v[-1] = case["neg"]
+        v = offending(v)
     K = case["K"]
     fns = {
         "bs_european_price": lambda: F.bs_european_price(s, t, v, strike=K),
@@ -244,13 +261,13 @@ def check_negative(case, ctx):
     for name, fn in fns.items():
         ctx.expect_raises("C18/negative-accepted", (ValueError,), fn)
     ctx.nontrivial(True)
-    ctx.cls("which:" + case["which"], "mixed:" + str(case["mixed"]))
+    ctx.cls("which:" + case["which"], "mixed:" + str(case["mixed"]), "form:" + form)
 
 
 # ------------------------------------------------------------------ hedger sweep
 STRESS = {
     "HestonStock": [{}, {"kappa": 0.5, "theta": 0.04, "sigma": 1.5, "rho": -0.7}, {"kappa": 2.0, "theta": 0.01, "sigma": 1.0, "rho": 0.5}],
-    "BrownianStock": [{}, {"sigma": 0.01}, {"sigma": 1.5}],
+    "BrownianStock": [{}, {"sigma": 0.01}, {"sigma": 1.5}, {"sigma": 0.0}],  # sigma = 0: deterministic paths, every step has zero volatility
     "MertonJumpStock": [{}, {"sigma": 0.05, "jump_per_year": 200.0, "jump_std": 0.05}],
     "KouJumpStock": [{}, {"sigma": 0.05, "jump_per_year": 200.0}],
     "RoughBergomiStock": [{}, {"eta": 2.5, "xi": 0.01}],
@@ -313,6 +330,14 @@ def check_hedger(case, ctx):
             ctx.exclude("K3:zero-volatility-path", n_ex)
             ctx.cls("k3-paths-present")
         bad = bad & ~zero_vol_path
+    # known finding K6: the Black-Scholes delta of a European binary exactly at the money with no volatility is +inf (its
+    # limiting value): excluded by construction on such steps, kept visible by a committed replay
+    atm0 = ((ul.spot[:, :-1] == case["strike"]) & (vol[:, :-1] == 0)).any(dim=1)
+    if case["model"] == "bs" and case["deriv"] == "EuropeanBinaryOption" and not case.get("k6"):
+        n_ex = int((bad & atm0).sum())
+        if n_ex:
+            ctx.exclude("K6:binary-at-the-money-zero-volatility", n_ex)
+        bad = bad & ~atm0
     if bool(bad.any()):
         n = int(bad.nonzero()[0])
         steps = (~torch.isfinite(hedge[n, 0])).nonzero().flatten().tolist()
@@ -321,6 +346,7 @@ def check_hedger(case, ctx):
                  f"{case['model']} hedger of {case['deriv']} on {case['ul']['type']}: non-finite hedge/P&L on path {n} "
                  f"(first non-finite hedge step {first} of {Tn}, P&L {pnl[n].item()!r})",
                  k3_combo=combo, zero_vol_at_first_nan=bool(first is not None and first < Tn and vol[n, min(first, Tn - 1)] == 0),
+                 binary_atm_zero_vol=bool(case["model"] == "bs" and case["deriv"] == "EuropeanBinaryOption" and atm0[n]),
                  path=n, step=first)
     term = ul.spot[:, -1] / case["strike"]
     ctx.nontrivial(bool(((term - 1).abs() < 0.01).any()))
